@@ -770,3 +770,87 @@ Proof.
   intros t. simpl. induction ts as [|a ts IH]; simpl; [discriminate|].
   destruct (str_eqb t a); [discriminate | exact IH].
 Qed.
+
+(* ---------- "the same class" = the same _class_hash ---------- *)
+(* What register does when the name is held by a class with the SAME hash (the identical object or another
+   class object with the same import path): it is accepted; names, tags, `_tags`, the library's tag table and the
+   protected list stay as they are; the stored object becomes the one just passed, in place (dict order kept). *)
+Lemma same_hash_reregistration_lemma : forall rid fmt l0 ops n c t c',
+  let '(r, l, _) := run rid fmt rempty l0 ops in
+  slookup n (reg r) = Some (c, t) -> cls_hash c' = cls_hash c ->
+  step rid fmt r l (ORegister n c') = ({| reg := sset n (c', t) (reg r); tgs := tgs r |}, l, RNone).
+Proof.
+  intros rid fmt l0 ops n c t c'. destruct (run rid fmt rempty l0 ops) as [[r l] xs] eqn:E.
+  pose proof (reachable_inv _ _ _ _ _ _ _ E) as I. intros H Hh.
+  assert (Hu : uses r n t) by (exists c; assumption).
+  simpl. unfold register. rewrite H. unfold same_class. unfold cls_hash in Hh. rewrite Hh, N.eqb_refl.
+  rewrite (inv_fmt _ _ _ _ _ I _ _ _ H).
+  destruct (inv_used _ _ _ _ _ I _ _ Hu) as [Hl Hp].
+  rewrite (inv_prot _ _ _ _ _ I), Hp.
+  pose proof (inv_tags _ _ _ _ _ I t) as Ht.
+  destruct (slookup t (tgs r)) as [ns|] eqn:Ens; [|destruct (Ht n Hu)].
+  destruct Ht as (_ & _ & Hin).
+  rewrite (nadd_same n ns) by (apply Hin; assumption).
+  rewrite (sset_same_id _ _ _ Ens), (sset_same_id _ _ _ Hl).
+  rewrite <- (inv_prot _ _ _ _ _ I). destruct l; reflexivity.
+Qed.
+
+(* seen through the API: afterwards get(n) is the new object, every other name is as before, the set of names
+   is as before *)
+Lemma same_hash_reregistration_api_lemma : forall rid fmt l0 ops n c t c',
+  let '(r, l, _) := run rid fmt rempty l0 ops in
+  slookup n (reg r) = Some (c, t) -> cls_hash c' = cls_hash c ->
+  let '(r', l', x) := step rid fmt r l (ORegister n c') in
+  x = RNone /\ l' = l /\ tgs r' = tgs r /\ get n r' = RCls c' /\
+  (forall m, m <> n -> get m r' = get m r) /\ skeys (reg r') = skeys (reg r).
+Proof.
+  intros rid fmt l0 ops n c t c'.
+  pose proof (same_hash_reregistration_lemma rid fmt l0 ops n c t c') as S.
+  destruct (run rid fmt rempty l0 ops) as [[r l] xs]. intros H Hh. rewrite (S H Hh).
+  split; [reflexivity|]. split; [reflexivity|]. split; [reflexivity|]. split; [|split].
+  - unfold get. simpl. rewrite slookup_sset_same. reflexivity.
+  - intros m Hm. unfold get. simpl. rewrite slookup_sset_other by assumption. reflexivity.
+  - simpl. clear S Hh. revert H. induction (reg r) as [|[k v] d IH]; simpl; [discriminate|].
+    destruct (str_eqb_spec n k) as [Ek|Ek]; intro H; simpl; [reflexivity|]. rewrite IH by assumption. reflexivity.
+Qed.
+
+(* ---------- the tree form of the correspondence check = the per-history check on every path ---------- *)
+Scheme otree_mut := Induction for otree Sort Prop
+  with oforest_mut := Induction for oforest Sort Prop.
+Combined Scheme otree_oforest_ind from otree_mut, oforest_mut.
+
+Lemma forallb_app_b {A} (f : A -> bool) (a b : list A) : forallb f (a ++ b) = forallb f a && forallb f b.
+Proof. induction a as [|x a IH]; simpl; [reflexivity|]. rewrite IH, andb_assoc. reflexivity. Qed.
+
+Lemma check_path_cons w o q p w1 y :
+  wstep w o = (w1, y) -> check_path w ((o, q) :: p) = wobs_eqb q (observe w1 y) && check_path w1 p.
+Proof. intro H. cbn [check_path]. rewrite H. reflexivity. Qed.
+
+Lemma forallb_check_path_cons w o q w1 y ps :
+  wstep w o = (w1, y) ->
+  forallb (check_path w) (map (cons (o, q)) ps) =
+  match ps with [] => true | _ :: _ => wobs_eqb q (observe w1 y) && forallb (check_path w1) ps end.
+Proof.
+  intro H. induction ps as [|p ps IH]; [reflexivity|].
+  cbn [map forallb]. rewrite IH, (check_path_cons _ _ _ _ _ _ H).
+  destruct (wobs_eqb q (observe w1 y)); [|reflexivity]. destruct ps; simpl; rewrite ?andb_true_r; reflexivity.
+Qed.
+
+Lemma check_tree_forest_paths :
+  (forall t w, check_tree w t = forallb (check_path w) (tree_paths t)) /\
+  (forall f w, check_forest w f = forallb (check_path w) (forest_paths f)).
+Proof.
+  apply otree_oforest_ind.
+  - intros o q kids IH w. cbn [check_tree tree_paths forallb].
+    destruct (wstep w o) as [w1 y] eqn:E.
+    rewrite (forallb_check_path_cons _ _ _ _ _ _ E), (check_path_cons _ _ _ _ _ _ E), IH.
+    cbn [check_path]. rewrite andb_true_r.
+    destruct (wobs_eqb q (observe w1 y)); [|reflexivity]. destruct (forest_paths kids); reflexivity.
+  - intros w. reflexivity.
+  - intros t IHt f IHf w. cbn [check_forest forest_paths]. rewrite forallb_app_b, IHt, IHf. reflexivity.
+Qed.
+
+(* a forest is accepted iff every history in it (every path from a root to a node) is accepted call by call *)
+Lemma check_forest_paths_lemma : forall f w,
+  check_forest w f = true <-> forall p, In p (forest_paths f) -> check_path w p = true.
+Proof. intros f w. rewrite (proj2 check_tree_forest_paths). apply forallb_forall. Qed.
